@@ -50,8 +50,14 @@ def run(ctx):
         for f in (r.send, r.send_events):
             g = cfg_of(f.node)
             flow = status_flow(f)
-            for w in attr_writes(f):
-                if w.attr == "_event_queue":
+            sites = [w.node for w in attr_writes(f) if w.attr == "_event_queue"]
+            # an enqueue helper called on self counts as the enqueue (send() -> self._enqueue(ev))
+            for s_ in res.callsites(f, v):
+                if s_.recv == "self" and any(any(w2.attr == "_event_queue" and w2.base == "self" for w2 in attr_writes(t)) for t in s_.targets
+                                             if t.qualname not in (r.drain.qualname,)):
+                    sites.append(s_.call)
+            for site in sites:
+                    w = type("W", (), {"node": site})()
                     n += 1
                     ids = cfg_node_of(f, w.node)
                     pre = frozenset().union(*[flow.get(i, frozenset()) for i in ids])
@@ -94,6 +100,7 @@ def run(ctx):
         if p.method(v, "_is_state_done").qualname != isd.qualname:
             c.ob("R4", shared.normalised_body(p.method(v, "_is_state_done")) == shared.normalised_body(isd), p.method(v, "_is_state_done"),
                  "override:_is_state_done", "override equals the base done-ness computation", p.method(v, "_is_state_done").node)
+    shared.dotted_id_tests(ctx, "R6")
     # ---- R5 done-check only on final-state entry; output precedence -------------------
     for v in VIEWS:
         r = roles(ctx, v)
